@@ -197,8 +197,9 @@ def decide(prop, tier, seed, repo, workdir, a, t0):
 
     # ---- report
     ev = evidence.build(prop, tier, seed, pl, e1, summ, e3, known_hits, violations, undecided, checker_errors, time.time() - t0)
-    os.makedirs(os.path.join(VERIF, "evidence"), exist_ok=True)
-    json.dump(ev, open(os.path.join(VERIF, "evidence", "%s.json" % prop), "w"), indent=1, default=repr)
+    evdir = os.environ.get("PCV_EVIDENCE_DIR") or os.path.join(VERIF, "evidence")
+    os.makedirs(evdir, exist_ok=True)
+    json.dump(ev, open(os.path.join(evdir, "%s.json" % prop), "w"), indent=1, default=repr)
     for l in lines:
         print(l)
     seen = set()
